@@ -32,6 +32,50 @@ def cases(tier: str):
             yield dict(n=n, es=es, prio=prio, res="t" * n, mc=1)
 
 
+def debug_cases(tier):
+    """debug nodes with priorities, RUN_DEBUG_NODES on: nodes re-added to a sub-graph keep their compound priority"""
+    from .c03 import down_closed_sets
+    q = tier == "quick"
+    for n in (2, 3, 4):
+        for es in shapes(n):
+            if n == 4 and q and len(es) > 3:
+                continue
+            for dbg in down_closed_sets(n, es):
+                if len(dbg) == n:
+                    continue
+                for prio in (tuple(range(1, n + 1)), tuple(range(n, 0, -1)), tuple(3 if j in dbg else 1 for j in range(n))):
+                    yield dict(n=n, es=es, prio=prio, res="t" * n, mc=1, debug=list(dbg), family="debug")
+
+
+def run_debug_case(acc, c):
+    from tawazi import cfg
+    p = prog_of(c)
+    ids = p.ids()
+    want = ref_table(p)
+    acc.cases += 1
+    cfg.RUN_DEBUG_NODES = True
+    try:
+        d, ns = build_gprog(p)
+        for sel in [None] + single_selections(p)[1:]:
+            kw = {}
+            if sel is not None:
+                for key, name in (("T", "target_nodes"), ("X", "exclude_nodes"), ("R", "root_nodes")):
+                    if sel.get(key) is not None:
+                        kw[name] = [ids[i] for i in sel[key]]
+            try:
+                g = d.executor(**kw).graph
+            except ValueError:
+                continue
+            acc.evaluations += 1
+            compare(acc, c, f"executor({kw}).graph with RUN_DEBUG_NODES on", dict(g.compound_priority), want, set(g.nodes))
+            if any(ids[i] in g.nodes for i in c["debug"]) and sel is not None:
+                acc.mark_nontrivial((repr(c), repr(sel)))
+        acc.states += 1
+        acc.transitions += 1
+    finally:
+        cfg.RUN_DEBUG_NODES = False
+
+
 def ref_table(p, prios=None):
     prios = prios if prios is not None else [nd.prio for nd in p.nodes]
     return {p.ids()[i]: prios[i] + sum(prios[j] for j in p.desc(i)) for i in range(len(p.nodes))}
@@ -160,13 +204,20 @@ def run_case_c07(acc, c, replaying=False):
 
 
 def run_shard(tier, k, n, acc):
+    import itertools
     acc.extra["hash_seed_of_shard"] = os.environ.get("PYTHONHASHSEED")
-    for c in shard_iter(cases(tier), k, n, acc):
-        run_case_c07(acc, c)
+    for c in shard_iter(itertools.chain(cases(tier), debug_cases(tier)), k, n, acc):
+        if c.get("family") == "debug":
+            run_debug_case(acc, c)
+        else:
+            run_case_c07(acc, c)
 
 
 def replay(v):
     from ..acc import Acc
     a = Acc(ID, 0, 1, 600)
+    if v["case"].get("family") == "debug":
+        run_debug_case(a, v["case"])
+        return a.violations, None
     run_case_c07(a, v["case"], True)
     return a.violations, None
